@@ -21,7 +21,7 @@ import vlib
 import hub_runs as hr
 from vlib import Evidence, Verdict, tlc, log
 
-MODEL_PROGS = ["putput", "putget", "putdel", "badput", "create", "badsame"]
+MODEL_PROGS = ["putput", "putget", "putdel", "badput", "create", "badsame", "writeback", "delwb"]
 
 
 def run(pid, tier, ev=None, vd=None, finish=True):
@@ -73,6 +73,18 @@ def run(pid, tier, ev=None, vd=None, finish=True):
                 if k % 5 == 4:
                     job["kill"] = (rng.randint(1, max(program)), rng.randint(0, 9))
                 jobs.append(job)
+        # seeded request programs (any expected / new content combination), random and strictly sequential orders
+        for k in range(60 if tier == "quick" else 1500):
+            prg = random.Random(vlib.seed() * 7919 + k)
+            program = hr.random_program(prg)
+            init = prg.choice([{"f": "c1"}, {"f": "c1"}, {"f": "c1", "g": "c2"}, {}])
+            sids = sorted(program)
+            prg.shuffle(sids)
+            for pol in ("random", "seq"):
+                job = {"prog": f"gen{k}", "program": program, "policy": "random", "seed": vlib.seed() * 31 + k, "init": init, "src": "search"}
+                if pol == "seq":
+                    job["order"] = [sid for sid in sids for _ in range(60)]
+                jobs.append(job)
         # the lock itself as the suspect: every multi-commit program under the lock-stress policy
         for prog, program in [("casrace3", hr.CASRACE3), ("three", hr.EXTRA["three"]), ("deldel", hr.EXTRA["deldel"]), ("putput", hr.PROGRAMS["putput"]),
                               ("create", hr.PROGRAMS["create"]), ("putdel", hr.PROGRAMS["putdel"])]:
@@ -116,7 +128,10 @@ def run(pid, tier, ev=None, vd=None, finish=True):
                                            + (" (accepted when List replies are not constrained)" if i in relaxed_ok else "")),
                              {"kind": "hub-history", "record": rc, "list_only": i in relaxed_ok})
             if pid == "C10":
-                if i not in accepted and i not in relaxed_ok and any(e["t"] == "call" and not e["op"]["valid"] for e in rc["events"]):
+                # (seeded 'gen' programs mix a bad Put with arbitrary CAS traffic: a failure there need not be the bad Put's doing,
+                #  so this clause is decided on the directed programs only; C03 reports the others)
+                if (i not in accepted and i not in relaxed_ok and not rc["prog"].startswith("gen")
+                        and any(e["t"] == "call" and not e["op"]["valid"] for e in rc["events"])):
                     vd.violation(f"{rc['prog']}-badput-" + "".join(str(s[0]) for s in rc["sched"])[:60],
                                  describe(rc, "a Put whose streamed bytes do not match its declared hash / length did not leave the tree and replies as if it had never been sent"),
                                  {"kind": "hub-history", "record": rc})
